@@ -53,7 +53,18 @@ func checkC08(e *core.Env) {
 	defer decServer.Close()
 	defer decMux.Close()
 	defer decInproc.Close()
-	cs.list = append(cs.list, decInproc, decServer, decMux)
+	// a registration that describes every stream as bidirectional (generic dispatchers and proxies register
+	// that way): how many responses a call may yield is the caller's descriptor's business
+	genericDesc := ScriptedDesc
+	genericDesc.Streams = append([]grpc.StreamDesc{}, ScriptedDesc.Streams...)
+	for k := range genericDesc.Streams {
+		genericDesc.Streams[k].ClientStreams, genericDesc.Streams[k].ServerStreams = true, true
+	}
+	genSvc := &Service{}
+	genCh := &inprocgrpc.Channel{}
+	genCh.RegisterService(&genericDesc, genSvc)
+	genInproc := &Carrier{Name: "inproc-generic-registration", CC: genCh, Inproc: true, Svc: genSvc, Inner: genCh}
+	cs.list = append(cs.list, decInproc, decServer, decMux, genInproc)
 	n := e.N(800, 12000)
 	e.Cases("responses", n, func(i int, r *rand.Rand) {
 		for ci, c := range cs.list {
